@@ -114,7 +114,8 @@ K_VARORDER = "dump-variables-in-pointer-order"
 
 def normalize_vars(data):
     """order the <var> elements of every <variables> section by a pointer-independent key (position of the
-    name token, then the element with all ids blanked); used only to classify the known finding"""
+    name token, then the element with all ids blanked); used only to say in the replay file whether a dump
+    difference is confined to the order of the <var> elements (the defect fixed by 18a8c79)"""
     universe = set(m.group(1) for m in re.finditer(rb'\bid="([0-9a-f]{6,16})"', data))
     tokpos = {}
     for m in re.finditer(rb'<token id="([0-9a-f]+)" file="([^"]*)" linenr="(\d+)" column="(\d+)"', data):
@@ -269,13 +270,13 @@ def check(run, replay):
                                       bucket="%s vs %s,%s" % (envspec[0], ref[0], "identical-bytes" if A == B else "renamed"))
                             if res != [b"1"]:
                                 run.stream(stream)["disagreements"] += 1
-                                # known finding: only the order of the <var> elements differs
+                                # diagnosis (fixed by 18a8c79, must not come back): only the order of the <var> elements differs
                                 ja, _ = dump_items(normalize_vars(A))
                                 jb, _ = dump_items(normalize_vars(B))
                                 _, mo2, _ = vlib.run_lines([model], [vlib.enc_case([b"canoneq"] + ja + [b"|"] + jb)])
                                 if vlib.dec_line(mo2[0]) == [b"1"]:
                                     run.extra["varorder_cases"] = run.extra.get("varorder_cases", 0) + 1
-                                    run.violation(K_VARORDER, "the <var> elements of the dump's <variables> section come in pointer order (std::set<const Variable*>)",
+                                    run.violation(K_VARORDER, "dump of %s differs between environment %s and %s: the <var> elements of the <variables> section come in a different order (pointer order? fix 18a8c79 missing?)" % (f, ref[0], envspec[0]),
                                                   {"file": f, "env_a": ref[0], "env_b": envspec[0], "env_b_settings": envspec[2],
                                                    "source": open(os.path.join(d, "src", f)).read(),
                                                    "how": "cppcheck -q --dump f  vs  MALLOC_MMAP_THRESHOLD_=64 cppcheck -q --dump f (no hook needed): the <variables> sections list the same variables in a different order"})
